@@ -66,6 +66,16 @@ BEHAVIOUR_PRESERVING += [
  ('bp_validator_len_respelled', [('plonky2/src/plonk/validate_shape.rs', '    ensure!(partial_products.len() == config.num_challenges * common_data.num_partial_products);', '    ensure!(common_data.num_partial_products * config.num_challenges == partial_products.len());')], ['C17', 'C18', 'C03'], None),
 ]
 
+M += [
+ ('c13_circuit_hash_absorbs_width_chunks', [('plonky2/src/hash/hashing.rs', '        for input_chunk in inputs.chunks(H::AlgebraicPermutation::RATE) {', '        for input_chunk in inputs.chunks(H::AlgebraicPermutation::WIDTH) {')], ['C13'], 'R13.'),
+ ('c13_squeeze_exposes_capacity', [('plonky2/src/hash/poseidon.rs', '        &self.state[..Self::RATE]', '        &self.state[..Self::WIDTH]')], ['C13'], 'R13.3'),
+ ('c13_compress_second_input_misplaced', [('plonky2/src/hash/hashing.rs', '    perm.set_from_slice(&y.elements, NUM_HASH_OUT_ELTS);', '    perm.set_from_slice(&y.elements, NUM_HASH_OUT_ELTS + 1);')], ['C13'], 'R13.4'),
+ ('c13_challenger_absorbs_late', [('plonky2/src/iop/challenger.rs', '        if self.input_buffer.len() == H::Permutation::RATE {\n            self.duplexing();\n        }', '        if self.input_buffer.len() == H::Permutation::WIDTH {\n            self.duplexing();\n        }')], ['C13'], 'R13.2'),
+]
+BEHAVIOUR_PRESERVING += [
+ ('bp_hash_rate_via_local', [('plonky2/src/hash/hashing.rs', '    for input_chunk in inputs.chunks(P::RATE) {', '    let rate = P::RATE;\n    for input_chunk in inputs.chunks(rate) {')], ['C13'], None),
+]
+
 def run(name, subs, checks):
     args = [os.path.join(V, 'selftest', 'mutrun.py')]
     for f, o, n in subs:
